@@ -4,7 +4,7 @@
    Proofs/SchedCycleDue.v (forced close touches no flag; reference model).
    See manifest.d/C05.json for what is full / partial. *)
 From Hio Require Import Base.Prelude Base.AMap Base.Time Model.Sched Proofs.SchedFrame Proofs.SchedLife Proofs.SchedTop
-  Proofs.SchedCycleTick Proofs.SchedCycleDue Proofs.SchedCycleStop Proofs.SchedCycleDone Proofs.SchedCycleFlag Proofs.SchedCycleTree.
+  Proofs.SchedCycleTick Proofs.SchedCycleDue Proofs.SchedCycleStop Proofs.SchedCycleDone Proofs.SchedCycleFlag Proofs.SchedCycleTree Proofs.SchedAdo Proofs.SchedHist Proofs.SchedCycleHist.
 
 (* Vocabulary (Proofs/SchedCycleStop.v), all for the root scheduler:
      entered fuel p        the state after Doist.enter, in which the cycle loop starts
@@ -330,6 +330,125 @@ Qed.
 Print Assumptions C05_tree_done.
 
 (* ------------------------------------------------------------------ *)
+(* 5. HISTORIES (Proofs/SchedHist.v): a first do()/ado() followed by further runs of the
+   same doer objects, on the same Doist (RAgain limit tyme') or under a new Doist
+   (RFresh limit tyme0 ds).  Every run of a history is  enter ; cycle_loop  from the
+   state rr_start s r (tyme (re)set, root flag False, for RFresh a fresh root scheduler)
+   over the doers rr_doers s r (the kept .doers / ds); its start tyme is rr_tyme s r
+   (tyme' / tyme0 / the kept tyme), its limit rr_limit r.  All statements below are for
+   s = run_hist ... h, ANY history h, and the next run r (sync or async).  No extra
+   precondition on s is needed for the stop rule: what the rerun enters is whatever is
+   startable in s (a doer still suspended is skipped by the model, as by Python). *)
+
+(* the stop rule: FULL *)
+Theorem C05_stop_rule_histories :
+  forall (T : Type) (TT : Time T) (cycles fuel : nat) (asyn : bool) (p : prog T) (h : list rerun) (r : rerun) (n : nat),
+    let tk := p_tock p in let s := run_hist cycles fuel asyn p h in
+    let e := entered_from tk fuel (rr_start s r) (rr_doers s r) in
+    let lim := lim_of (rr_limit r) in let stop := stop_of (rr_tyme s r) (rr_limit r) in
+    enter_ok_from tk fuel (rr_start s r) (rr_doers s r) = true -> (n < cycles)%nat ->
+    (forall j, (j <= n)%nat -> cycle_ok tk fuel (after tk fuel e j) = true) ->
+    (forall j, (j < n)%nat -> stops lim stop (after tk fuel e (S j)) = false) ->
+    stops lim stop (after tk fuel e (S n)) = true ->
+    let s2 := after tk fuel e (S n) in
+    run_hist cycles fuel asyn p (h ++ [r]) = finish tk fuel s2 /\
+    tyme (run_hist cycles fuel asyn p (h ++ [r])) = grid (rr_tyme s r) tk (S n) /\
+    get_done (run_hist cycles fuel asyn p (h ++ [r])) 0%N =
+      match deeds (get_sched s2 0%N) with [] => Some true | _ => get_done s2 0%N end.
+Proof.
+  intros T TT cycles fuel asyn p h r n. cbv zeta. rewrite run_hist_snoc, rerun_step_tail, <- rr_start_tyme.
+  apply tail_stop.
+Qed.
+Print Assumptions C05_stop_rule_histories.
+
+(* ... and nothing else can happen in a rerun either: FULL *)
+Theorem C05_exhaustive_histories :
+  forall (T : Type) (TT : Time T) (cycles fuel : nat) (asyn : bool) (p : prog T) (h : list rerun) (r : rerun),
+    let tk := p_tock p in let s := run_hist cycles fuel asyn p h in
+    let s0 := rr_start s r in let ds := rr_doers s r in
+    let e := entered_from tk fuel s0 ds in
+    let lim := lim_of (rr_limit r) in let stop := stop_of (rr_tyme s r) (rr_limit r) in
+    let fin := run_hist cycles fuel asyn p (h ++ [r]) in
+    oof fin = true \/
+    (exists s1 kbd, enter_own tk fuel s0 0%N ds = (s1, GRaise kbd) /\ fin = emit (close_own tk fuel s1 0%N) DoRaise 0%N) \/
+    (exists n, (n < cycles)%nat /\
+       (forall j, (j <= n)%nat -> cycle_ok tk fuel (after tk fuel e j) = true) /\
+       (forall j, (j < n)%nat -> stops lim stop (after tk fuel e (S j)) = false) /\
+       stops lim stop (after tk fuel e (S n)) = true /\
+       fin = finish tk fuel (after tk fuel e (S n))) \/
+    (exists n s1 kbd, (n < cycles)%nat /\
+       (forall j, (j < n)%nat -> cycle_ok tk fuel (after tk fuel e j) = true /\ stops lim stop (after tk fuel e (S j)) = false) /\
+       recur_pass tk fuel (after tk fuel e n) 0%N = (s1, GRaise kbd) /\
+       fin = emit (close_own tk fuel s1 0%N) (if kbd then DoReturn else DoRaise) 0%N).
+Proof.
+  intros T TT cycles fuel asyn p h r. cbv zeta. rewrite run_hist_snoc, rerun_step_tail, <- rr_start_tyme.
+  apply tail_cases.
+Qed.
+Print Assumptions C05_exhaustive_histories.
+
+(* without a limit (None or falsy) the rerun returns right after the first cycle at whose end
+   the deque is empty, with done = True; with a truthy limit L it stops after the first cycle
+   whose end tyme satisfies start + |L| <= tyme or whose deque is empty, and done = True iff
+   the deque was empty then.  FULL; the `iff` needs "no doer is numbered 0". *)
+Theorem C05_limit_histories :
+  forall (T : Type) (TT : Time T) (cycles fuel : nat) (asyn : bool) (p : prog T) (h : list rerun) (r : rerun) (n : nat),
+    let tk := p_tock p in let s := run_hist cycles fuel asyn p h in
+    let e := entered_from tk fuel (rr_start s r) (rr_doers s r) in
+    let stop := stop_of (rr_tyme s r) (rr_limit r) in
+    let fin := run_hist cycles fuel asyn p (h ++ [r]) in
+    get (p_defs p) 0%N = None ->
+    enter_ok_from tk fuel (rr_start s r) (rr_doers s r) = true -> (n < cycles)%nat ->
+    (forall j, (j <= n)%nat -> cycle_ok tk fuel (after tk fuel e j) = true) ->
+    (forall j, (j < n)%nat -> deeds (get_sched (after tk fuel e (S j)) 0%N) <> [] /\
+         (limited (lim_of (rr_limit r)) = true -> tleb stop (grid (rr_tyme s r) tk (S j)) = false)) ->
+    (deeds (get_sched (after tk fuel e (S n)) 0%N) = [] \/
+     (limited (lim_of (rr_limit r)) = true /\ tleb stop (grid (rr_tyme s r) tk (S n)) = true)) ->
+    tyme fin = grid (rr_tyme s r) tk (S n) /\
+    (get_done fin 0%N = Some true <-> deeds (get_sched (after tk fuel e (S n)) 0%N) = []).
+Proof.
+  intros T TT cycles fuel asyn p h r n. cbv zeta. intros D0 Ok Hc Oks Ne St.
+  set (s := run_hist cycles fuel asyn p h) in *.
+  set (e := entered_from (p_tock p) fuel (rr_start s r) (rr_doers s r)) in *.
+  assert (Ty : forall k, tyme (after (p_tock p) fuel e k) = grid (rr_tyme s r) (p_tock p) k).
+  { intro k. rewrite after_tyme. unfold e. rewrite entered_from_tyme, rr_start_tyme. reflexivity. }
+  destruct (C05_stop_rule_histories T TT cycles fuel asyn p h r n Ok Hc Oks) as (_ & Tyf & Dn).
+  - intros j Hj. fold s e. unfold stops. rewrite Ty. destruct (Ne j Hj) as [N1 N2].
+    destruct (deeds (get_sched (after (p_tock p) fuel e (S j)) 0%N)) eqn:Ed; [congruence|].
+    destruct (limited (lim_of (rr_limit r))); [now rewrite N2|reflexivity].
+  - fold s e. unfold stops. rewrite Ty. destruct St as [E|[L E]]; [now rewrite E|].
+    destruct (deeds (get_sched (after (p_tock p) fuel e (S n)) 0%N)); [reflexivity|now rewrite L, E].
+  - fold s e in Tyf, Dn. split; [exact Tyf|]. rewrite Dn.
+    assert (Nt : get_done (after (p_tock p) fuel e (S n)) 0%N <> Some true).
+    { unfold e. apply (tail_root_flag (p_tock p) fuel (p_defs p) D0).
+      apply rr_start_dinv; [exact D0|]. apply (run_hist_inv cycles fuel asyn p D0 h). }
+    destruct (deeds (get_sched (after (p_tock p) fuel e (S n)) 0%N)); split; intro X;
+      try reflexivity; try discriminate; contradiction.
+Qed.
+Print Assumptions C05_limit_histories.
+
+(* done flags after EVERY history (no doer numbered 0; oof = false): the exact rules 4b
+   (leaves) and 4c (DoDoers that are not `always`) hold in the final state - each enter of a
+   later run resets the flag to False, and the flag follows the most recent lifecycle *)
+Theorem C05_flags_exact_histories :
+  forall (T : Type) (TT : Time T) (cycles fuel : nat) (asyn : bool) (p : prog T) (h : list rerun) (i : id),
+    get (p_defs p) 0%N = None ->
+    let s := run_hist cycles fuel asyn p h in
+    oof s = false ->
+    match get (p_defs p) i with
+    | Some (FLeaf k sc) => flag_ok k sc (evs i s) (get_done s i)
+    | Some (FNest _ false _) => nflag_ok (evs i s) (get_done s i)
+    | _ => True
+    end.
+Proof.
+  intros T TT cycles fuel asyn p h i D0. cbv zeta. intro O.
+  destruct (run_hist_inv cycles fuel asyn p D0 h) as (_ & [X|X]); [congruence|].
+  destruct (get (p_defs p) i) as [[k sc|t0 [|] kids]|] eqn:G; try exact I.
+  - now apply leaf_flag with (D := p_defs p).
+  - now apply nest_flag with (D := p_defs p) (t0 := t0) (kids := kids).
+Qed.
+Print Assumptions C05_flags_exact_histories.
+
+(* ------------------------------------------------------------------ *)
 (* Non-vacuity.  A nested program with a limit that is not a multiple of tock:
    tock 2, start 10, limit 5 -> stop at the first cycle end >= 15, i.e. 16 (n = 2);
    doer 1 returns True at 12, doer 4 returns None, doer 5 is still alive at the end. *)
@@ -387,6 +506,31 @@ Proof.
   cbv zeta. split; [reflexivity|]. split; [vm_compute; reflexivity|].
   split. { intros j Hj. destruct j as [|[|[|[|[|[|j]]]]]]; try lia; vm_compute; reflexivity. }
   split. { intros j Hj. destruct j as [|[|[|[|[|j]]]]]; try lia; vm_compute; discriminate. }
+  vm_compute. repeat split.
+Qed.
+
+(* a history: the first run of ex_nolimit (all complete, ends at 22), then the same Doist
+   again with a new limit 3 and the tyme reset to 100 (stops at 104 = first cycle end >= 103,
+   doers alive: done False), then a new Doist at tyme 50 over doers [5; 1] without a limit *)
+Definition ex_hist : list (@rerun Z) := [RAgain (Some 3%Z) (Some 100%Z); RFresh None 50%Z [5; 1]%N].
+Example C05_example_histories :
+  let p := ex_nolimit in let tk := p_tock p in
+  let s := run_hist 50 100 false p [] in let r := RAgain (Some 3%Z) (Some 100%Z) in
+  let e := entered_from tk 100 (rr_start s r) (rr_doers s r) in
+  get (p_defs p) 0%N = None /\ rr_tyme s r = 100%Z /\ rr_doers s r = [1; 2; 5]%N /\
+  enter_ok_from tk 100 (rr_start s r) (rr_doers s r) = true /\
+  (forall j, (j <= 1)%nat -> cycle_ok tk 100 (after tk 100 e j) = true) /\
+  (forall j, (j < 1)%nat -> deeds (get_sched (after tk 100 e (S j)) 0%N) <> [] /\
+      (limited (lim_of (rr_limit r)) = true -> tleb (stop_of (rr_tyme s r) (rr_limit r)) (grid (rr_tyme s r) tk (S j)) = false)) /\
+  limited (lim_of (rr_limit r)) = true /\ tleb (stop_of (rr_tyme s r) (rr_limit r)) (grid (rr_tyme s r) tk 2) = true /\
+  oof (run_hist 50 100 false p ex_hist) = false /\
+  tyme (run_hist 50 100 false p [r]) = 104%Z /\ get_done (run_hist 50 100 false p [r]) 0%N = Some false /\
+  tyme (run_hist 50 100 false p ex_hist) = 62%Z /\ get_done (run_hist 50 100 false p ex_hist) 0%N = Some true /\
+  run_hist 50 100 true p ex_hist = run_hist 50 100 false p ex_hist.
+Proof.
+  cbv zeta. split; [reflexivity|]. split; [reflexivity|]. split; [vm_compute; reflexivity|]. split; [vm_compute; reflexivity|].
+  split. { intros j Hj. destruct j as [|[|j]]; try lia; vm_compute; reflexivity. }
+  split. { intros j Hj. destruct j as [|j]; try lia. split; [vm_compute; discriminate|intros _; vm_compute; reflexivity]. }
   vm_compute. repeat split.
 Qed.
 
